@@ -140,16 +140,22 @@ Theorem C16_series_inplace_failure_atomic : forall f self v s e l,
 Proof. exact ts_iop_atomic_snapshot. Qed.
 Print Assumptions C16_frame_series_inplace.
 
-(* ---- FRAME: periodogram_csd up to the transform: the argument keeps bytes AND shape, whether
-        the transform returns or raises (bad NFFT) *)
-Theorem C16_frame_periodogram_csd : forall a N s l,
-  wf s -> l < next s -> snapshot (fst (csd a N s)) l = snapshot s l.
+(* ---- FRAME: periodogram_csd up to the transform, for BOTH array arguments (the signals `a` and the
+        optional precomputed transform `Sk`, of any number of dimensions): every object keeps bytes
+        AND shape, whether the call returns or raises (bad NFFT, a 1-d Sk) *)
+Theorem C16_frame_periodogram_csd : forall a Sk N s l,
+  wf s -> l < next s -> snapshot (fst (csd a Sk N s)) l = snapshot s l.
 Proof. exact csd_snapshot. Qed.
 Print Assumptions C16_frame_periodogram_csd.
 Theorem C16_periodogram_csd_before_fix_refuted :
   exists s a, snd (csd_old a (Some (-1)%Z) s) = Exn EValue /\
               snapshot (fst (csd_old a (Some (-1)%Z) s)) a <> snapshot s a.
 Proof. exact csd_old_refuted. Qed.
+(* the variant `Sk_loc = np.asarray(Sk); Sk_loc.shape = (-1, N)` reshapes the caller's Sk in place *)
+Theorem C16_periodogram_csd_sk_inplace_refuted :
+  exists s a k r, snd (csd_sk_inplace a k s) = Ok r /\
+                  snapshot (fst (csd_sk_inplace a k s)) k <> snapshot s k.
+Proof. exact csd_sk_inplace_refuted. Qed.
 
 (* ---- FRAME: boxcar_filter and FilterAnalyzer.filtered_boxcar *)
 Theorem C16_frame_boxcar : forall a s l,
@@ -194,9 +200,19 @@ Example C16_ex_uniform_rejections :
    snapshot (fst (ut_iop (-1) 7 (PRef 9) ex_ut2)) 9 = snapshot ex_ut2 9).
 Proof. exact (conj ex_ut_imul_zero (conj ex_ut_iop_cancel ex_ut_isub_ramp)). Qed.
 (* a failing periodogram_csd call (NFFT = -1) on a (2,2,2) array: raises, argument intact *)
-Example C16_ex_csd_fails : snd (csd 1 (Some (-1)%Z) ex_arr3) = Exn EValue /\
-  snapshot (fst (csd 1 (Some (-1)%Z) ex_arr3)) 1 = snapshot ex_arr3 1.
+Example C16_ex_csd_fails : snd (csd 1 None (Some (-1)%Z) ex_arr3) = Exn EValue /\
+  snapshot (fst (csd 1 None (Some (-1)%Z) ex_arr3)) 1 = snapshot ex_arr3 1.
 Proof. exact ex_csd_keeps. Qed.
+(* a 1-d precomputed Sk (object 3) is refused with TypeError, a 3-d one (object 5) is accepted; in
+   both calls Sk and s keep bytes and shape *)
+Example C16_ex_csd_sk :
+  (snd (csd 1 (Some 3) None ex_sk) = Exn EType /\
+   snapshot (fst (csd 1 (Some 3) None ex_sk)) 3 = snapshot ex_sk 3 /\
+   snapshot (fst (csd 1 (Some 3) None ex_sk)) 1 = snapshot ex_sk 1) /\
+  ((exists r, snd (csd 1 (Some 5) None ex_sk) = Ok r) /\
+   snapshot (fst (csd 1 (Some 5) None ex_sk)) 5 = snapshot ex_sk 5 /\
+   snapshot (fst (csd 1 (Some 5) None ex_sk)) 1 = snapshot ex_sk 1).
+Proof. exact ex_csd_sk_keeps. Qed.
 (* a well-formed store with a TimeSeries (object 8, data object 1 / buffer 0) and a separate operand
    array (object 10): `series += array` succeeds, changes the series, keeps the operand; a history
    on a copy of the series changes the copy and not the original *)
